@@ -100,6 +100,24 @@ theorem forRange {α : Type} {Q : α → Prop} {lo hi : Int} {body : Int → (Un
       · omega
       · omega
 
+/-- a `for cond { body }` loop: an invariant `I` and a variant `μ` below the fuel -/
+theorem whileLoop {σ α : Type} {Q : α → Prop} {cond : σ → Bool} {body : σ → (σ → Chk α) → Chk α} {after : σ → Chk α}
+    (I : σ → Prop) (μ : σ → Nat)
+    (hb : ∀ s next, I s → cond s = true → (∀ s', I s' → μ s' < μ s → (next s').Safe Q) → (body s next).Safe Q)
+    (ha : ∀ s, I s → cond s = false → (after s).Safe Q) :
+    ∀ (n : Nat) (s : σ), I s → μ s < n → (CheckedGo.whileLoop cond body after n s).Safe Q := by
+  intro n
+  induction n with
+  | zero => intro s _ h; omega
+  | succ k ih =>
+    intro s hi hm
+    simp only [CheckedGo.whileLoop]
+    by_cases hc : cond s = true
+    · rw [if_pos hc]
+      exact hb s _ hi hc (fun s' hi' hlt => ih s' hi' (by omega))
+    · rw [if_neg hc]
+      exact ha s hi (by simpa using hc)
+
 end Safe
 
 theorem land_nonneg (a b : Int) : 0 ≤ land a b := by simp [land]
